@@ -208,9 +208,70 @@ def _sign_mul(a, b):
     return NONNEG if sa * sb > 0 else NONPOS
 
 
+_CLS_SET = None
+
+
+def _cls_sets():
+    global _CLS_SET
+    if _CLS_SET is None:
+        _CLS_SET = {POS: frozenset("+"), NEG: frozenset("-"), ZERO: frozenset("0"), NONNEG: frozenset("0+"), NONPOS: frozenset("-0"),
+                    NONZERO: frozenset("-+"), ANY: frozenset("-0+")}
+    return _CLS_SET
+
+
+def meet(c1, c2):
+    """intersection of two sign classes; None when empty (contradictory)"""
+    cs = _cls_sets()
+    r = cs.get(c1, cs[ANY]) & cs.get(c2, cs[ANY])
+    if not r:
+        return None
+    for k, v in cs.items():
+        if v == r:
+            return k
+    return ANY
+
+
+def negcls(c):
+    return {POS: NEG, NEG: POS, NONNEG: NONPOS, NONPOS: NONNEG}.get(c, c)
+
+
+def _shift(cls, c):
+    """class of q + c given the class of the integer-valued q and a constant c"""
+    if c == 0:
+        return cls
+    if cls == ZERO:
+        return POS if c > 0 else NEG
+    if cls == POS:          # q >= 1
+        return POS if c >= 0 else (NONNEG if c == -1 else ANY)
+    if cls == NONNEG:       # q >= 0
+        return POS if c > 0 else ANY
+    if cls == NEG:          # q <= -1
+        return NEG if c <= 0 else (NONPOS if c == 1 else ANY)
+    if cls == NONPOS:
+        return NEG if c < 0 else ANY
+    return ANY
+
+
 def sign(p, signs):
-    """sign class of polynomial p given signs: symbol -> class (missing = ANY); common monomial factors are pulled out first"""
+    """sign class of polynomial p given signs: symbol -> class (missing = ANY); common monomial factors are pulled out first.
+    signs["__facts"]: list of (polynomial, class) assumed by the current sub-case (path split on a comparison the case did not fix)"""
     p = _p(p)
+    s0 = _sign_nofacts(p, signs)
+    facts = signs.get("__facts") if isinstance(signs, dict) else None
+    if facts and s0 not in (ZERO,):
+        for q, cls in facts:
+            for qq, cc in ((q, cls), (q * -1, negcls(cls))):
+                d = p - qq
+                if d.is_const():
+                    c = d.const_value()
+                    if c.denominator == 1:
+                        m = meet(s0, _shift(cc, int(c)))
+                        if m is not None:
+                            s0 = m
+    return s0
+
+
+def _sign_nofacts(p, signs):
     if p.is_zero():
         return ZERO
     if len(p.t) > 1:
